@@ -294,7 +294,6 @@ package zapcore
 //@ func (*zapcore.Level).UnmarshalText
 //@   props C20
 //@   flags nopanic
-//@   requires errUnmarshalNilLevel != nil
 //@   modifies *l
 //@   ensures l == nil ==> result != nil
 //@   ensures l != nil ==> ((result == nil) <==> (isLevelName(seq(text)) || isLevelName(lower(seq(text)))))
@@ -305,7 +304,6 @@ package zapcore
 //@ func (*zapcore.Level).Set
 //@   props C20
 //@   flags nopanic
-//@   requires errUnmarshalNilLevel != nil
 //@   modifies *l
 //@   ensures l != nil ==> ((result == nil) <==> (isLevelName(s) || isLevelName(lower(s))))
 //@   ensures l != nil && isLevelName(s) ==> *l == levelOfName(s)
@@ -314,7 +312,6 @@ package zapcore
 //@ func zapcore.ParseLevel
 //@   props C20
 //@   flags nopanic
-//@   requires errUnmarshalNilLevel != nil
 //@   ensures (result.1 == nil) <==> (isLevelName(text) || isLevelName(lower(text)))
 //@   ensures isLevelName(text) ==> result.0 == levelOfName(text)
 //@   ensures !isLevelName(text) && isLevelName(lower(text)) ==> result.0 == levelOfName(lower(text))
@@ -482,3 +479,37 @@ package zapcore
 //@   track LO = call zapcore.LevelOf
 //@   modifies nothing
 //@   ensures #LO == 1 && LO.arg0[0] == s.Core && result == LO.ret0[0]
+
+// multiCore.Level: the minimum of the branches' reported levels; hence InvalidLevel when
+// every branch reports InvalidLevel (nothing enabled anywhere).
+//@ func (zapcore.multiCore).Level
+//@   props C05
+//@   flags nopanic
+//@   requires len(mc) > 0
+//@   requires forall k int :: 0 <= k && k < len(mc) ==> mc[k] != nil
+//@   track LO = call zapcore.LevelOf
+//@   modifies nothing
+//@   ensures #LO == len(mc)
+//@   ensures forall k int :: 0 <= k && k < len(mc) ==> LO.arg0[k] == mc[k]
+//@   ensures result == (minOver(LO.ret0, len(mc)) < InvalidLevel ? minOver(LO.ret0, len(mc)) : InvalidLevel)
+//@   loop 1 invariant 0 <= $idx && $idx <= len(mc) && #LO == $idx
+//@   loop 1 invariant forall k int :: 0 <= k && k < $idx ==> LO.arg0[k] == mc[k]
+//@   loop 1 invariant $idx == 0 ==> minLvl == InvalidLevel
+//@   loop 1 invariant $idx > 0 ==> minLvl == (minOver(LO.ret0, $idx) < InvalidLevel ? minOver(LO.ret0, $idx) : InvalidLevel)
+
+// Round trip of the seven valid levels through their text forms (C20). The facts about
+// bytes.ToLower on the seven capital names are ground axioms, executed against the real
+// library on every run (ground/c20_test.go).
+//@ axiom lower_caps: lower("DEBUG") == "debug" && lower("INFO") == "info" && lower("WARN") == "warn" && lower("ERROR") == "error" && lower("DPANIC") == "dpanic" && lower("PANIC") == "panic" && lower("FATAL") == "fatal"
+
+//@ lemma level_roundtrip_lower
+//@   props C20
+//@   statement forall l zapcore.Level :: -1 <= l && l <= 5 ==> isLevelName(levelName(l)) && levelOfName(levelName(l)) == l
+
+//@ lemma level_roundtrip_capital
+//@   props C20
+//@   statement forall l zapcore.Level :: -1 <= l && l <= 5 ==> !isLevelName(levelCapName(l)) && isLevelName(lower(levelCapName(l))) && levelOfName(lower(levelCapName(l))) == l
+
+//@ lemma level_empty_is_info
+//@   props C20
+//@   statement isLevelName("") && levelOfName("") == 0
